@@ -88,9 +88,9 @@ PATHS = [("C", ["NEW", "REP C"], True), ("R", ["NEW", "REP R"], True), ("D", ["N
 def part_bas(ck, exe, model):
     r = ck.rng
     quick = ck.tier == "quick"
-    dims = [(1, 1), (2, 1), (1, 2), (2, 2), (3, 1), (2, 3), (3, 2)] if quick else \
+    dims = [(1, 1), (2, 1), (1, 2), (2, 2), (3, 1), (2, 3), (3, 2), (3, 3), (2, 4)] if quick else \
         [(1, 1), (2, 1), (1, 2), (2, 2), (3, 1), (1, 3), (2, 3), (3, 2), (3, 3), (2, 4), (4, 2), (3, 4), (4, 3), (4, 4), (3, 5), (5, 4)]
-    cap = 60 if quick else 1500
+    cap = 120 if quick else 1500
     jobs = []      # (cid, p, rows, cols, rn, cn)
     k = 0
     for (m, n) in dims:
@@ -108,7 +108,7 @@ def part_bas(ck, exe, model):
             jobs.append(("b%d" % k, p, rows, cols, rn, cn, "enum"))
             k += 1
     # larger LPs: random valid setBasis arrays
-    for _ in range(40 if quick else 1200):
+    for _ in range(60 if quick else 1200):
         p = lpgen.gen_around_point(r, 8 if quick else 14) if r.random() < 0.7 else lpgen.gen_random(r, 8 if quick else 14)
         rows, cols = bc.random_valid_basis(r, p, free_zero_only=(r.random() < 0.7))
         used = set()
@@ -204,6 +204,9 @@ def part_bas(ck, exe, model):
                 continue
             # 1. the file is what the model writes
             exp = A.get("wf%d" % ci, {}).get("recs", "").rstrip(";")
+            if loaded and ";".join(recs) != exp and ";".join(recs) == A.get("wk%d" % ci, {}).get("recs", "").rstrip(";"):
+                ck.count("bas:format-flag-honoured-by-writeBasisFile(fixed variant)")
+                exp = ";".join(recs)
             if ";".join(recs) != exp:
                 ck.violation("bas-writer-correspondence:%s" % key, "the records written (%s) differ from the model's (%s)" % (";".join(recs), exp),
                              dict(ctx, model=exp, theorem="correspondence BasisFileModel.writeBasisFile / writeBasisFileOutside"))
@@ -219,6 +222,9 @@ def part_bas(ck, exe, model):
                     ck.count("bas:format-flag-dropped-by-SPxSolverBase::writeBasisFile")
             # 2. reading: implementation vs model of the implementation
             mr = A.get("rd%d" % ci, {})
+            if rb["ok"] != mr.get("ok") and rb["ok"] == A.get("ri%d" % ci, {}).get("ok"):
+                ck.count("bas:reader-uses-documented-default-names(fixed variant)")
+                mr = A.get("ri%d" % ci, {})
             if rb["ok"] != mr.get("ok"):
                 ck.violation("bas-reader-correspondence:%s" % key, "readBasisFile returned %s, the model %s" % (rb["ok"], mr.get("ok")), dict(ctx, model=mr))
                 continue
@@ -251,11 +257,14 @@ def part_bas(ck, exe, model):
 # --------------------------------------------------------------------------------------------------------------
 def part_state(ck, exe, model):
     r = ck.rng
-    ns, nmax = (70, 8) if ck.tier == "quick" else (1500, 14)
+    ns, nmax = (110, 8) if ck.tier == "quick" else (1500, 14)
     jobs, htxt = [], ""
     for k in range(ns):
         q = r.randrange(10)
         p = lpgen.gen_around_point(r, nmax) if q < 6 else (lpgen.gen_random(r, nmax) if q < 8 else lpgen.gen_lp(r, nmax))
+        if r.random() < 0.85:
+            # the MPS writer throws on a free row (finding of C12): give free rows a far right-hand side in most cases
+            p.rows = [(lhs, co, Fraction(1000) if (lhs is None and rhs is None) else rhs) for (lhs, co, rhs) in p.rows]
         free_row = any(lhs is None and rhs is None for (lhs, co, rhs) in p.rows)
         cfg = lpgen.rand_config(r)
         cfg.pop("solution_polishing", None)
@@ -267,7 +276,7 @@ def part_state(ck, exe, model):
         rn, cn = rand_names(r, p.m, 7, used), rand_names(r, p.n, 7, used)
         names = r.random() < 0.6
         setfirst = r.random() < 0.6
-        readnames = r.random() < 0.8
+        readnames = True if names else r.random() < 0.6      # a file with user names cannot be read with default names
         start = r.choice(["solve", "solve", "setbasis"])
         cid = "s%d" % k
         htxt += p.text(cid) + "\nNEW %s\nNAMES r %s\nNAMES c %s\n" % (lpgen.cfg_text(cfg), " ".join(rn), " ".join(cn))
